@@ -52,6 +52,8 @@ Notation "x <- m ;; k" := (bind m (fun x => k))
   (at level 61, m at next level, right associativity) : res_scope.
 Notation "' pat <- m ;; k" := (bind m (fun x => match x with pat => k end))
   (at level 61, pat pattern, m at next level, right associativity) : res_scope.
+Notation "m ;; k" := (bind m (fun _ => k))
+  (at level 61, right associativity) : res_scope.
 (* guard: continue when b holds, else fail with class c *)
 Definition guard (b : bool) (c : errclass) : res unit := if b then Ok tt else Err c.
 Notation "'check' b 'else' c ;; k" := (bind (guard b c) (fun _ => k))
